@@ -16,6 +16,8 @@ PROGRAMS = [
     ('min_path', E + '@Recursive(D, 3);\nD(x) Min= 0 :- S(x);\nD(y) Min= D(x) + w :- W(x, y, w);\nFar(x) :- D(x) > 2;\n', 'Far'),
     ('functors', E + 'A1(x) :- G(x);\nA2(x, y) :- E(x, y);\nB1(x) :- F(x, y);\nB2(x, y) :- F(y, x);\nMid(x, y) :- A1(x), A2(x, y);\nFn(x, y) :- Mid(x, y), A1(y);\nN1 := Fn(A1: B1);\nN2 := Fn(A2: B2);\nN3 := Fn(A1: B1, A2: B2);\nT(x) :- N1(x, y), N2(y, z), N3(z, x);\n', 'T'),
     ('functor_of_recursive', E + '@Recursive(R, 2);\nBase(x, y) :- E(x, y);\nAlt(x, y) :- F(x, y);\nR(x, y) distinct :- Base(x, y);\nR(x, y) distinct :- R(x, z), Base(z, y);\nR2 := R(Base: Alt);\nT(x, y) :- R(x, y), R2(y, x);\n', 'T'),
+    ('diamond_sqlite', E + '@Recursive(A, 4, mode: "diamond");\nA() Max= 0;\nB() Max= A() + 1;\nC() Max= A() + B();\nA() Max= C() + B();\nTest() Max= A() + B() + C();\n', 'Test'),
+    ('diamond_duckdb', '@Engine("duckdb");\n@Recursive(Ra, 5);\nRa(x) distinct :- T(x);\nRb(x) distinct :- Ra(x);\nRb(x + 1) distinct :- Rc(x), x < 9;\nRc(x) distinct :- Ra(x);\nRc(x + 2) distinct :- Rb(x), x < 9;\nRa(x) distinct :- Rb(x), Rc(x);\nN() += 1 :- Ra(x), Rb(x), Rc(x);\n', 'N'),
     ('ground_plan', E + '@Ground(M);\n@Ground(M2);\nM(x, y) :- E(x, y), x != y;\nM2(x) distinct :- M(x, y);\nAgg(x) += y :- M(x, y), M2(y);\nN(x, s) :- Agg(x) == s, M2(x), ~M(x, x);\n', 'N'),
     ('combines', E + 'P(x, u, v, w) :- G(x), u == Sum{y :- E(x, y)}, v == Max{y :- F(x, y), y > u}, w List= (y + v :- E(y, x));\n', 'P'),
     ('psql_types', '@Engine("psql");\nT({a: 1, b: "x"});\nS({c: [1], d: {e: 2}});\nU({f: {g: "s"}, h: 1});\nP(x, y, z) :- T(x), S(y), U(z);\n', 'P'),
